@@ -342,6 +342,19 @@ where
         proofs: &[Proof<E>],
         rng: &mut R,
     ) -> Result<bool, Error> {
+        if commitments.len() != points.len()
+            || commitments.len() != values.len()
+            || commitments.len() != proofs.len()
+        {
+            return Err(Error::IncorrectInputLength(format!(
+                "batch_check needs one point, value and proof per commitment: {} commitments, {} points, {} values, {} proofs",
+                commitments.len(),
+                points.len(),
+                values.len(),
+                proofs.len()
+            )));
+        }
+
         let check_time =
             start_timer!(|| format!("Checking {} evaluation proofs", commitments.len()));
 
